@@ -9,6 +9,7 @@ import (
 	"hash/fnv"
 	"math/big"
 	"reflect"
+	"strings"
 
 	"github.com/kardiachain/go-kardia/lib/common"
 	"github.com/kardiachain/go-kardia/types"
@@ -31,13 +32,54 @@ func mkAddr(first, second, fill, last byte) common.Address {
 	return a
 }
 
+// hexDisagree: a sorts before b as bytes (the specified order) but after b in the mixed-case
+// checksum spelling of the real Address.Hex().
+func hexDisagree(a, b common.Address) bool {
+	return bytes.Compare(a[:], b[:]) < 0 && strings.Compare(a.Hex(), b.Hex()) > 0
+}
+
+// findCaseTriple searches (deterministically, with the real Address.Hex()) three addresses
+// t1 < t2 < t3 in byte order whose Hex() spellings sort in exactly the opposite order: t1 starts with a
+// lower-case 'c', t2 with "Ca", t3 with "CB" - every pair first differs at a letter nibble spelled in
+// opposite case. salt varies the remaining bytes.
+func findCaseTriple(salt int) (t [3]common.Address, ok bool) {
+	want := []struct {
+		first  byte
+		prefix string
+	}{{0xc5, "0xc"}, {0xca, "0xCa"}, {0xcb, "0xCB"}}
+	for k, w := range want {
+		found := false
+		for c := 0; c < 1<<14 && !found; c++ {
+			var a common.Address
+			for i := range a {
+				a[i] = byte(salt*29 + c*7 + i*13)
+			}
+			a[0], a[18], a[19] = w.first, byte(c>>7), byte(c<<1) // last byte even: a+1 differs in the last byte only
+			if strings.HasPrefix(a.Hex(), w.prefix) {
+				t[k], found = a, true
+			}
+		}
+		if !found {
+			return t, false
+		}
+	}
+	return t, hexDisagree(t[0], t[1]) && hexDisagree(t[1], t[2]) && hexDisagree(t[0], t[2])
+}
+
+var poolCaseTriple [3]common.Address
+
 func initPool() bool {
+	t, ok := findCaseTriple(1)
+	if !ok {
+		return false
+	}
+	poolCaseTriple = t
+	last := t[2]
+	last[len(last)-1]++ // differs from t[2] in the last byte only
 	pool = []common.Address{
-		mkAddr(0x00, 0x00, 0x00, 0x01),
-		mkAddr(0x00, 0xff, 0x00, 0x00),
-		mkAddr(0x01, 0x00, 0x00, 0x00),
-		mkAddr(0x7f, 0xff, 0xff, 0xff),
-		mkAddr(0x80, 0x00, 0x00, 0x00),
+		mkAddr(0x00, 0x00, 0x00, 0x01), // differs from all others in the high byte
+		t[0], t[1], t[2],               // byte order and Hex() order disagree for every pair
+		last,
 		mkAddr(0xff, 0xff, 0xff, 0xff),
 	}
 	for i, a := range pool {
